@@ -167,8 +167,8 @@ func modeCase(r *vk.Run, idx int) {
 	steps := rng.Range(15, 45)
 	for s := 0; s < steps && !t.dead; s++ {
 		req := &traits.UpdateModeValuesRequest{Name: "dev"}
-		want := map[string]string{}   // asserted values after the call
-		open := map[string]bool{}     // modes whose value the documentation leaves open for this request
+		want := map[string]string{} // asserted values after the call
+		open := map[string]bool{}   // modes whose value the documentation leaves open for this request
 		extreme, wrapped, zeroStep := false, false, false
 		kind := rng.Intn(10)
 		var op string
